@@ -21,6 +21,16 @@ def gen_dur(rng, nominal=0.35):
     if r < 0.15:
         w = rng.choice([1, -1, 2, 52, -3, 7, rng.randint(-100, 100)])
         return ("W", w if w else 1)
+    if r < 0.25 and nominal:
+        # nominal durations whose rough length (year = common year, month = 30 d) is zero or one
+        # unit away from it: falsy-by-length but not empty
+        y = rng.choice([1, -1, 2, -2, 0, 0])
+        mo = rng.choice([0, 0, 1, -1, 12, -5]) if y else rng.choice([1, -1, 12, -5])
+        days = -(y * rng.choice([365, 365, 360, 366]) + mo * 30) + rng.choice([0, 0, 0, 1, -1])
+        h = rng.choice([0, 0, 24, -24, 1])
+        if h in (24, -24):
+            days -= h // 24
+        return ("U", y, mo, days, h, 0, 0)
     y = mo = 0
     if rng.random() < nominal:
         y = rng.choice([0, 0, 1, -1, 2, 10])
